@@ -652,6 +652,17 @@ func run(c *fw.Ctx, idx int) {
 			}
 			a, e1 := content(ctx, cl.members[victim])
 			b, e2 := content(ctx, cl.members[cl.leaderOr(ctx, (victim+1)%n)])
+			// two restores can also follow each other without a gap: a key written twice by
+			// restore events was restored twice
+			restoredTimes := map[string]int{}
+			for _, e := range es {
+				if e.kind == "restore" && e.op == "put" {
+					restoredTimes[e.cidK]++
+					if restoredTimes[e.cidK] >= 2 && groups < 2 {
+						groups = 2
+					}
+				}
+			}
 			if groups >= 2 && e1 == nil && e2 == nil {
 				staleOnly, stale := true, 0
 				for k, v := range b {
@@ -759,6 +770,52 @@ func run(c *fw.Ctx, idx int) {
 		}
 		checkDurable(ctx, c, cl, hist, "partition")
 	case "offline":
+		// every second time a whole stop/start cycle comes first: the folders then hold a
+		// snapshot from the first stop, and the second run goes on well beyond it
+		if (idx/6)%2 == 1 {
+			for _, m := range cl.members {
+				m.peer.Node.Close()
+				m.alive = false
+			}
+			var all []int
+			ok := true
+			for i := range cl.members {
+				if err := cl.startMember(ctx, i); err != nil {
+					ok = false
+				}
+				all = append(all, i)
+			}
+			if !ok || cl.boot(ctx, all) != nil {
+				c.Inconclusive("second run: the cluster did not come back")
+				return
+			}
+			if !waitUntil(30*time.Second, func() bool { return cl.leader(ctx) >= 0 }) {
+				c.Inconclusive("second run: no leader")
+				return
+			}
+			rr := fw.NewRand(c.Seed, "C01/second-run-ops", idx)
+			// long enough for the log index to gain a digit where that is within reach
+			// (56 -> 100 and beyond): numbers that compare differently as text
+			more := 70
+			if rh := sim.RaftHandle(cl.members[cl.leaderOr(ctx, 0)].peer.Node.Consensus); rh != nil {
+				at := int(rh.AppliedIndex())
+				next := 10
+				for next <= at {
+					next *= 10
+				}
+				if need := next + 5 - at; need > more && need <= 160 {
+					more = need
+				}
+			}
+			for k := 0; k < more; k++ {
+				submit(70, cl.leaderOr(ctx, 0), rr.Pick("pin", "pin", "unpin"), rr.Intn(nCids), rr)
+			}
+			if !quiesce(30 * time.Second) {
+				c.Inconclusive("second run: replicas did not settle")
+				return
+			}
+			c.Cover("offline/after-a-second-run")
+		}
 		// shut everything down and read each folder offline
 		want := map[string]string{}
 		if l := cl.leader(ctx); l >= 0 {
